@@ -46,7 +46,21 @@ def stepOfJson (j : Json) : Except String StepDef := do
   match j with
   | .str n => pure { name := some n, simple := true }
   | _ =>
-    let name ← optStrField j "name"
+    -- a sequence item that is neither a string nor a mapping: `{"item": Val}`
+    if let .ok it := j.getObjVal? "item" then
+      match ← Val.ofJson it with
+      | .dict _ => throw "a mapping item is a complex step"
+      | .bytes _ | .tuple _ | .obj _ => throw "item not expressible in yaml"
+      | v => return itemStep v
+    -- `name`: a string, null/absent, or (a yaml slip) any other value
+    let (name, rawName) ← match j.getObjVal? "name" with
+      | .ok (.str s) => pure (some s, none)
+      | .ok .null => pure (none, none)
+      | .ok v => do
+          match ← Val.ofJson v with
+          | .bytes _ | .tuple _ | .obj _ => throw "name not expressible in yaml"
+          | w => pure (none, some w)
+      | .error _ => pure (none, none)
     let inArgs ← match j.getObjVal? "in" with
       | .ok .null => pure none
       | .ok a => do
@@ -65,20 +79,33 @@ def stepOfJson (j : Json) : Except String StepDef := do
         | .ok _ => pure (none, true)
         | .error _ => do pure (some (← retryOfJson w), false)
       | .error _ => pure (none, false)
-    pure { name, simple := false, inArgs,
+    -- the wire carries the 1-based position the renderer recorded; ruamel's `lc` is 0-based
+    let lc : Option (Nat × Nat) ← match ← optNat j "line", ← optNat j "col" with
+      | some l, some c => if l == 0 || c == 0 then throw "line/col are 1-based" else pure (some (l - 1, c - 1))
+      | none, none => pure none
+      | _, _ => throw "line and col go together"
+    pure { name, rawName, simple := false, inArgs,
            run := ← getD j "run" (.bool true), skip := ← getD j "skip" (.bool false),
            swallow := ← getD j "swallow" (.bool false), foreach := ← optVal j "foreach",
            while_ := wcfg, whileBad := wbad, retry := rcfg, retryBad := rbad,
-           onError := ← optVal j "onError", line := ← optNat j "line", col := ← optNat j "col" }
+           onError := ← optVal j "onError", description := ← optVal j "description", lc }
 
 def pipeOfJson (j : Json) : Except String PipeDef := do
   let name ← (← j.getObjVal? "name").getStr?
   let parser ← optStrField j "parser"
   let groups ← (← (← j.getObjVal? "groups").getArr?).toList.mapM fun g => match g with
-    | .arr #[.str gn, .null] => pure (gn, none)
-    | .arr #[.str gn, steps] => do
-        let ss ← (← steps.getArr?).toList.mapM stepOfJson
-        pure (gn, some ss)
+    | .arr #[.str gn, .null] => pure (gn, GroupBody.null)
+    | .arr #[.str gn, .arr steps] => do
+        let ss ← steps.toList.mapM stepOfJson
+        pure (gn, GroupBody.steps ss)
+    | .arr #[.str gn, body] => do
+        -- a body that is not a sequence: `{"scalar": Val}`
+        match ← Val.ofJson (← body.getObjVal? "scalar") with
+        | .none => pure (gn, GroupBody.null)
+        | .str t => pure (gn, GroupBody.str t)
+        | .dict kvs => pure (gn, GroupBody.mapping (kvs.map (·.1)))
+        | .int _ | .flt _ _ | .bool _ | .sic _ | .py _ | .jsonify _ => pure (gn, GroupBody.unsized)
+        | _ => throw "group body outside the modelled shapes"
     | _ => throw "bad group"
   pure { name, parser, groups }
 
